@@ -3,6 +3,7 @@ import Dhlldv.Gen.Stratified
 import Dhlldv.Lemmas.Interp
 import Dhlldv.Lemmas.InterpMonoInc
 import Dhlldv.Lemmas.SegmentArea
+import Dhlldv.Lemmas.CanonGeom
 import Mathlib.Analysis.Real.Pi.Bounds
 import Mathlib.Tactic.Ring
 import Mathlib.Tactic.NormNum
@@ -21,17 +22,20 @@ theorem C19_areas :
     (stratified.areas Dp Cvs).2.1 + (stratified.areas Dp Cvs).2.2 = (stratified.areas Dp Cvs).1 ∧
     (stratified.areas Dp Cvs).2.2 = (stratified.areas Dp Cvs).1 * (Cvs / (Cst.Cvb : ℝ)) ∧
     (stratified.areas Dp Cvs).1 = Real.pi * (Dp / 2) ^ 2 := by
-  have h2 : (2.0 : ℝ) = 2 := by norm_num
-  simp only [stratified.areas, Transc.pi, Transc.npow, h2]
-  refine ⟨by ring, trivial, trivial⟩
+  obtain ⟨h1, h2, h3⟩ := areas_canon Dp Cvs
+  rw [h1, h2, h3]
+  exact ⟨by ring, rfl, rfl⟩
 
 /-- wetted perimeters above (O1) and below (O2) the bed sum to the circumference π Dp; bed width O12 = Dp sin β -/
 theorem C19_perimeters :
     let P := stratified.perimeters Dp Cvs
     P.2.1 + P.2.2.2 = P.1 ∧ P.1 = Real.pi * Dp ∧ P.2.2.1 = Dp * Real.sin (stratified.beta Cvs) ∧
     P.2.1 = (Real.pi - stratified.beta Cvs) * Dp ∧ P.2.2.2 = stratified.beta Cvs * Dp := by
-  simp only [stratified.perimeters, Transc.pi, Transc.sin]
-  refine ⟨by ring, trivial, trivial, trivial, by ring⟩
+  obtain ⟨h1, h2, h3, h4⟩ := perimeters_canon Dp Cvs
+  intro P
+  show (stratified.perimeters Dp Cvs).2.1 + (stratified.perimeters Dp Cvs).2.2.2 = (stratified.perimeters Dp Cvs).1 ∧ _
+  rw [h1, h2, h4]
+  exact ⟨by ring, rfl, h3, rfl, rfl⟩
 
 /-- the half-angle used is the table lookup at Cvs/Cvb -/
 theorem C19_beta_is_lookup : stratified.beta Cvs = InterpTable.at (Tbl.Arel_to_beta : InterpTable ℝ) (Cvs / (Cst.Cvb : ℝ)) := rfl
